@@ -153,8 +153,8 @@ pub fn arb_reply() -> BoxedStrategy<Reply> {
         1 => Just(Auth::WrongKeySha),
     ];
     let fp = prop_oneof![6 => Just(FpMode::Valid), 3 => Just(FpMode::Absent), 1 => Just(FpMode::Corrupt), 1 => Just(FpMode::Misplaced)];
-    (target, body, 0u8..4, auth, fp, prop_oneof![5 => Just(false), 1 => Just(true)])
-        .prop_map(|(target, body, extra, auth, fp, dup)| Reply { target, body, extra, auth, fp, dup })
+    (target, body, 0u8..4, auth, fp, prop_oneof![5 => Just(false), 1 => Just(true)], prop_oneof![5 => Just(0u8), 1 => 0u8..16])
+        .prop_map(|(target, body, extra, auth, fp, dup, twist)| Reply { target, body, extra, auth, fp, dup, twist })
         .boxed()
 }
 
@@ -217,7 +217,7 @@ pub fn arb_history(o: HistOpts) -> BoxedStrategy<History> {
             let fp = if cfg.fingerprint { FpMode::Valid } else { FpMode::Absent };
             let send = Op::Send { method: 1, attrs: vec![], small_buf: false };
             let reply = |body: Body, auth: Auth| {
-                Op::Deliver(Reply { target: Target::Outstanding(0), body, extra: 1, auth, fp: fp.clone(), dup: false })
+                Op::Deliver(Reply { target: Target::Outstanding(0), body, extra: 1, auth, fp: fp.clone(), dup: false, twist: 0 })
             };
             let mut pre: Vec<Op> = Vec::new();
             match (&cfg.mech, warm) {
